@@ -119,7 +119,16 @@ func main() {
 			for k := range m {
 				sort.Slice(m[k], func(i, j int) bool { return ruleNum(m[k][i]) < ruleNum(m[k][j]) })
 			}
-			data, _ := json.MarshalIndent(m, "", " ")
+			out := map[string]any{}
+			for k, v := range m {
+				out[k] = v
+			}
+			texts := map[string]map[string]string{}
+			for pid, t := range propInfo {
+				texts[pid] = map[string]string{"decided": t.Decided, "not_decided": t.NotDecided}
+			}
+			out["_texts"] = texts
+			data, _ := json.MarshalIndent(out, "", " ")
 			fmt.Println(string(data))
 			return
 		}
